@@ -188,6 +188,21 @@ def check(ctx):
                detail=str([[pretty(a)[:50] + "=" + str(p_) for a, p_ in rc] for rc in none_ret]),
                stmt="empty posterior log")
 
+    # minimising the stored transition infos (an engine option) must keep every error code
+    # as it is: the code is what the error log counts
+    mins = [fi for q, fi in sorted(repo.functions.items())
+            if q.startswith("liesel.goose.") and fi.name == "minimize" and fi.cls is not None
+            and fi.cls.module.name != "liesel.goose.types"]
+    for mf in mins:
+        rt_m = evaluate(repo, mf).ret()
+        ok_m = rt_m == SELF
+        if not ok_m and rt_m is not None and rt_m[0] == "call":
+            ec = kw(rt_m, "error_code", 0)
+            ok_m = ec == ("a", SELF, "error_code")
+        ctx.ob("C19.R2", mf, f"{mf.cls.name}.minimize() returns the info with its error code "
+                             f"unchanged (no cast to a narrower type, no recoding)", ok_m,
+               detail=short(rt_m or (), 120), stmt=f"{mf.cls.name}.minimize error code")
+    ctx.require_min("minimize() implementations of transition infos", len(mins), 1)
     # transition infos are recorded for EVERY transition (not thinned), so that every
     # returned code is counted
     eng = repo.cls("liesel.goose.engine.Engine")
